@@ -7,6 +7,9 @@ Decided:
                         to a worker (re-queue / poll registration), re-pointed it at a new delegate, or found it
                         already done / being cancelled by its own cancel() -- including the cancelled-delegate case
   R-DECIDED             a combinator that marks itself decided resolves (or cancels) its output on that path
+  R-FIND                every walk over the retry job list is under the executor lock or over a copy (C05)
+  R-ZIPTUPLE            f_zip's tuple construction in the last input's callback stays within the bounds of its
+                        class table (shared with C15)
 Not decided: completion 'no later than the virtual time implied by the configuration'; progress of user delegates.
 """
 from ..core import where_of, trace_of
